@@ -52,7 +52,10 @@ pub fn c03_oracle(case: &ConvCase, exp: &Expected, obs: &Observation, _nonce: &s
     }
     tri!(prefix("C03", comp_bodies(case, obs)));
     let rq = &case.conv.reqs[0];
-    let read_to_eof = matches!(case.prog(0).read, ReadPlan::ToEof { .. });
+    // (the followers arrive intact whatever part of the body was read: the rest is discarded by the
+    // library - C09's clause, checked here as well because a body reader that gets the boundary
+    // wrong shows in what follows)
+    let read_to_eof = true;
     if read_to_eof {
         // "never returns bytes of a later pipelined message": the sentinels arrive intact
         tri!(prefix("C03", comp_delivery_sequence(case, exp, obs)));
